@@ -666,6 +666,14 @@ func Run(c *lib.Ctx) {
 		c.Hit("corpus-file")
 		run(pool, r.Fork())
 	}
+	// one round over ALL hand-picked scalars at once (every boundary number of every width meets every
+	// other one: seeded change c14e – Compare by int64 subtraction – only shows for MinInt64/MaxInt64
+	// against values of the other sign, which a random sample of the scalars rarely puts together)
+	{
+		all := append(core(), scalars()...)
+		c.Hit("pool:all-scalars")
+		run(all, r.Fork())
+	}
 	rounds, size := c.Scale(8, 60), c.Scale(64, 80)
 	for i := 0; i < rounds; i++ {
 		rr := r.Fork()
